@@ -179,6 +179,11 @@ def run_case(spec):
                     # and far away from that line -- one class, one key
                     kw["symptom_key"] = key
                     key = "assist|hostile:module-has-a-continuation-line-indented-less-than-its-statement"
+                elif continuation_lines and key.startswith("definition|"):
+                    # go-to-definition in a module that has continuation lines inside brackets (every re-laid-out
+                    # module): witnesses of a resolved name without a definition line; one key per clause
+                    kw["symptom_key"] = key
+                    key = "|".join(key.split("|")[:2]) + "|module-has-continuation-lines-inside-brackets"
                 elif cur["line"] in continuation_lines and key.startswith("assist|visible-name-not-offered"):
                     # witnesses: with the cursor on a continuation line inside brackets (continuation indented
                     # deeper than its statement) rope leaves out some visible names -- `self`, module globals,
